@@ -170,6 +170,15 @@ def remesh_two_blocks_onto_three(h0: float, h1: float, h2: float, g0: float, g1:
     remesh_case(2, 3, h0, h1, h2, g0, g1, a0, a1, a2, p0, p1, p2, t0, t1, t2, c, stale)
 
 
+@lemma(gen=dict(GEN, m=(1, 3)), timeout=200)
+def remesh_one_block_onto_any(m: int, h0: float, h1: float, h2: float, g0: float, g1: float, a0: float, a1: float, a2: float, p0: float, p1: float,
+                              p2: float, t0: float, t1: float, t2: float, c: float, stale: float):
+    """ONE source block onto m = 1..3 destination blocks (enumerated): pure refinement of a single block / the identical
+    one-block mesh - the shapes the n >= 2 lemmas above leave out"""
+    m = choose(m, 1, 3)
+    remesh_case(1, m, h0, h1, h2, g0, g1, a0, a1, a2, p0, p1, p2, t0, t1, t2, c, stale)
+
+
 def peak_case(n, m, h0, h1, h2, g0, k0, k1, k2, stale):
     hs, pk = [h0, h1, h2], [k0, k1, k2]
     assume(h0 > 0 and h1 > 0 and h2 > 0 and g0 > 0)
@@ -212,6 +221,17 @@ def peak_quantity_takes_the_largest_overlapped_value(n: int, m: int, h0: float, 
     peak_case(n, m, h0, h1, h2, g0, k0, k1, k2, stale)
 
 
+@lemma(gen={"n": (1, 3), "m": (1, 2), "h0": (0.5, 80.0), "h1": (0.5, 80.0), "h2": (0.5, 80.0), "g0": (0.5, 80.0), "k0": (-9.0, 9.0), "k1": (-9.0, 9.0),
+            "k2": (-9.0, 9.0)}, timeout=120)
+def peak_quantity_takes_the_largest_overlapped_value_of_any_sign(n: int, m: int, h0: float, h1: float, h2: float, g0: float, k0: float, k1: float,
+                                                                 k2: float, stale: float):
+    """the same WITHOUT the sign hypothesis (holds since the fix of F132 / F218: the running maximum starts at the first
+    overlapped value, not at 0.0) and also for a ONE-block source: n = 1..3, m = 1..2 (enumerated), peak values of any sign."""
+    n = choose(n, 1, 3)
+    m = choose(m, 1, 2)
+    peak_case(n, m, h0, h1, h2, g0, k0, k1, k2, stale)
+
+
 @lemma(gen={"m": (1, 2), "h0": (0.5, 80.0), "h1": (0.5, 80.0), "g0": (0.5, 80.0), "a0": (0.0, 0.05), "a1": (0.0, 0.05), "p0": (0.0, 5.0), "p1": (0.0, 5.0)},
        timeout=200)
 def mapping_back_restores_the_totals(m: int, h0: float, h1: float, g0: float, a0: float, a1: float, p0: float, p1: float, stale: float):
@@ -242,3 +262,28 @@ def mapping_back_restores_the_totals(m: int, h0: float, h1: float, g0: float, a0
     pw2 = back[0].p.power + back[1].p.power
     assert (atoms2 <= atoms0 or (NATIVE and eq(atoms2, atoms0))) and atoms0 - atoms2 <= 4e-10 * atoms0, "atoms restored"
     assert (pw2 <= pw0 or (NATIVE and eq(pw2, pw0))) and pw0 - pw2 <= 4e-10 * pw0, "integrated total restored"
+
+
+@lemma(gen={"m": (1, 2), "h0": (0.5, 80.0), "h1": (0.5, 80.0), "g0": (0.5, 80.0), "p0": (-5.0, 5.0), "p1": (-5.0, 5.0)}, timeout=200)
+def mapping_back_restores_a_signed_integrated_total(m: int, h0: float, h1: float, g0: float, p0: float, p1: float, stale: float):
+    """mapping_back_restores_the_totals for an integrated quantity of ANY sign per block (e.g. a reactivity contribution; the
+    two values may cancel): there and back the assembly total differs from the original by at most the dropped slivers,
+    4e-10 x (|p0| + |p1|).  Same thickness hypothesis as above (F220)."""
+    m = choose(m, 1, 2)
+    assume(h0 > 0 and h1 > 0 and g0 > 0)
+    H = h0 + h1
+    assume(h0 >= 1e-6 and h1 >= 1e-6 and implies(m == 2, g0 >= 1e-6 and H - g0 >= 1e-6))
+    orig = [mesh_block(0.0, h0, {}, power=p0), mesh_block(h0, H, {}, power=p1)]
+    cuts = [0.0, H] if m == 1 else [0.0, g0, H]
+    mid = [mesh_block(cuts[k], cuts[k + 1], {}, power=stale) for k in range(m)]
+    back = [mesh_block(0.0, h0, {}, power=stale), mesh_block(h0, H, {}, power=stale)]
+    mapper = new(ParamMapper, blockParamNames=["power"], reactorParamNames=[], paramDefaults={}, isPeak={"power": False}, isVolIntegrated={"power": True})
+    try:
+        Converter.setAssemblyStateFromOverlaps(assembly(orig), assembly(mid), mapper, mapNumberDensities=False)
+        Converter.setAssemblyStateFromOverlaps(assembly(mid), assembly(back), mapper, mapNumberDensities=False)
+    except ValueError:
+        return
+    cover("mapped")
+    pw0 = p0 + p1
+    pw2 = back[0].p.power + back[1].p.power
+    assert abs(pw2 - pw0) <= 4e-10 * (abs(p0) + abs(p1)) + (1e-9 * (abs(p0) + abs(p1)) if NATIVE else 0.0), "integrated total restored"
